@@ -235,7 +235,7 @@ func conj(goals []engine.Term) engine.Term {
 func c19Query(ci *c19Interp, goals []engine.Term, n int) []string {
 	ci.rec = ci.rec[:0]
 	ok := false
-	_, err := solve(&ci.i.VM, conj(goals), 1, 10*time.Second, func(*engine.Env) bool { ok = true; return false })
+	_, err := solve(&ci.i.VM, conj(goals), 1, 30*time.Second, func(*engine.Env) bool { ok = true; return false })
 	toks := append([]string(nil), ci.rec...)
 	switch {
 	case err != nil:
@@ -259,7 +259,17 @@ func parseKV(hd string) map[string]string {
 	return m
 }
 
+// runC19 runs a case; a case that hit the wall-clock limit of a query (a starved scheduler on a loaded
+// machine: no goal here can loop) is run again, up to three times.
 func runC19(payload string) string {
+	out := runC19Once(payload)
+	for try := 0; try < 3 && strings.Contains(out, "deadline"); try++ {
+		out = runC19Once(payload)
+	}
+	return out
+}
+
+func runC19Once(payload string) string {
 	parts := strings.SplitN(payload, " | ", 2)
 	kv := parseKV(parts[0])
 	src, err := hex.DecodeString(kv["src"])
@@ -830,16 +840,17 @@ func genC19(r *rand.Rand, n int, tier string) []string {
 	ci := c19Pool.Get().(*c19Interp)
 	defer c19Pool.Put(ci)
 	var spans []c19Span
-	emit := func(src []byte, rd string, binary bool, eof string, drain int, queries [][]string) {
+	emitSp := func(src []byte, rd string, binary bool, eof string, drain int, queries [][]string, spans []c19Span) {
 		if !c19InFragment(src, binary, eof, queries, drain, spans) {
 			return
 		}
 		out = append(out, c19Header(src, rd, binary, eof, drain)+" | "+c19Render(queries))
 	}
+	emit := func(src []byte, rd string, binary bool, eof string, drain int, queries [][]string) {
+		emitSp(src, rd, binary, eof, drain, queries, spans)
+	}
 	if tier == "thorough" {
-		spans = []c19Span{{tok: 0, end: 7}, {tok: 8, end: 10}} // of the source "f(a,b). c." below; no effect on the others
-		genC19Exhaustive(emit)
-		spans = nil
+		genC19Exhaustive(emitSp)
 	}
 	for len(out) < n {
 		var src []byte
@@ -900,22 +911,23 @@ func genC19(r *rand.Rand, n int, tier string) []string {
 
 // genC19Exhaustive: every sequence of length ≤ 5 over seven ops on fixed sources, each as one conjunction
 // and as separate queries.
-func genC19Exhaustive(emit func(src []byte, rd string, binary bool, eof string, drain int, queries [][]string)) {
+func genC19Exhaustive(emit func(src []byte, rd string, binary bool, eof string, drain int, queries [][]string, spans []c19Span)) {
 	type cfg struct {
 		src    string
 		rd     string
 		binary bool
 		eof    string
+		spans  []c19Span
 	}
 	cfgs := []cfg{
-		{"é1", "str", false, "reset"},
-		{"a. b.", "file", false, "error"},
-		{"f(a,b). c.", "str", false, "eof_code"},
-		{"a.\n", "eofd", false, "eof_code"},
-		{"\xff1", "one", false, "reset"},
-		{"", "file", false, "error"},
-		{"ab", "file", true, "eof_code"},
-		{"a", "k3", true, "error"},
+		{"é1", "str", false, "reset", nil},
+		{"a. b.", "file", false, "error", nil},
+		{"f(a,b). c.", "str", false, "eof_code", []c19Span{{tok: 0, end: 7}, {tok: 8, end: 10}}},
+		{"a.\n", "eofd", false, "eof_code", nil},
+		{"\xff1", "one", false, "reset", nil},
+		{"", "file", false, "error", nil},
+		{"ab", "file", true, "eof_code", nil},
+		{"a", "k3", true, "error", nil},
 	}
 	textOps := []string{"gc", "pc", "rt", "ae", "pp", "pe", "gb"}
 	binOps := []string{"gb", "pb", "ae", "pp", "pe", "gc", "rt"}
@@ -932,9 +944,9 @@ func genC19Exhaustive(emit func(src []byte, rd string, binary bool, eof string, 
 					sep[i] = []string{seq[i]}
 				}
 				cp := append([]string(nil), seq...)
-				emit([]byte(c.src), c.rd, c.binary, c.eof, 2, [][]string{cp})
+				emit([]byte(c.src), c.rd, c.binary, c.eof, 2, [][]string{cp}, c.spans)
 				if len(seq) > 1 {
-					emit([]byte(c.src), c.rd, c.binary, c.eof, 2, sep)
+					emit([]byte(c.src), c.rd, c.binary, c.eof, 2, sep, c.spans)
 				}
 			}
 			if len(seq) == 5 {
